@@ -350,6 +350,22 @@ func (eng *Engine) runTop(c *FnCtx, fn *ssa.Function, fs *FuncSpec) {
 	c.ghosts = ghosts
 	c.modLocs = env.evalModLocs(fs.Modifies, fs.ModSrc)
 	c.hasMod = true
+	if len(fs.FrameTags) > 0 {
+		// the frame obligations only show that writes stay inside the modifies clause: the clause itself must not
+		// name memory of a shared type (parser, grammar node, lexer definition)
+		for _, l := range c.modLocs {
+			goal := TTrue
+			what := l.src
+			if l.mapT != nil {
+				if sharedType(l.mapT.Elem()) {
+					goal = TFalse
+				}
+			} else if l.root != nil && sharedType(l.root) {
+				goal = TFalse
+			}
+			c.oblige("frame", "modifies-root", c.tags, TTrue, goal, f.pos(fn.Pos()), "the modifies clause ("+what+") names per-call memory, not an object of a shared type")
+		}
+	}
 	for _, r := range fs.Requires {
 		c.addFact(env.evalBool(r.Expr))
 	}
